@@ -4,6 +4,7 @@ package main
 // inlining of uncontracted repo functions and closures, abstraction of everything else.
 
 import (
+	"sync"
 	"fmt"
 	"go/constant"
 	"go/types"
@@ -327,7 +328,13 @@ func (ex *Exec) builtin(fr *frame, b *ssa.Builtin, c *ssa.CallCommon, args []Val
 	case "print", "println":
 		return g, Val{}
 	case "recover":
-		return g, Val{T: u.freshConst("recovered", SIface), Typ: c.Signature().Results().At(0).Type()}
+		if !ex.recovering {
+			// no panic is in flight on a normally terminating path
+			return g, Val{T: "(mkI 0 0)", Typ: c.Signature().Results().At(0).Type()}
+		}
+		rv := u.freshConst("recovered", SIface)
+		u.fact(implies(g, not(eq(rv, "(mkI 0 0)"))))
+		return g, Val{T: rv, Typ: c.Signature().Results().At(0).Type()}
 	case "ssa:deferstack":
 		return g, Val{T: "0", Typ: c.Signature().Results().At(0).Type()}
 	case "ssa:wrapnilchk":
@@ -454,6 +461,8 @@ func (ex *Exec) applyContract(fr *frame, fc *FuncContract, callee *ssa.Function,
 	u := ex.u
 	if fc.Trusted {
 		ex.unit.addTrusted(key)
+	} else if callee != nil && callee.Blocks != nil {
+		noteReliance(shortFn(callee), fc)
 	}
 	ex.callOrd[key]++
 	ord := ex.callOrd[key]
@@ -944,4 +953,27 @@ func verbIndex(format string, verb byte) int {
 		k++
 	}
 	return -1
+}
+
+// ---- reliance audit: which callee postconditions were assumed at call sites ----
+
+var (
+	relianceMu sync.Mutex
+	reliedOn   = map[string]map[string]bool{} // function (short name) -> ensures labels assumed somewhere
+)
+
+func noteReliance(fn string, fc *FuncContract) {
+	relianceMu.Lock()
+	defer relianceMu.Unlock()
+	m := reliedOn[fn]
+	if m == nil {
+		m = map[string]bool{}
+		reliedOn[fn] = m
+	}
+	for i, e := range fc.Ensures {
+		m["ensures:"+clauseLabel(e, i)] = true
+	}
+	if fc.Modifies != nil {
+		m["frame"] = true
+	}
 }
